@@ -43,6 +43,9 @@ type World struct {
 	cut     bool
 	multi   bool
 	Deadlock bool
+	// Cur is the process currently running (exactly one runs at a time);
+	// hooks without a process argument use it.
+	Cur int
 }
 
 // NewWorld prepares a run of plan.
@@ -276,6 +279,7 @@ func (w *World) RunProcs(bodies []func(proc int)) {
 		} else {
 			p = en[w.Choose(len(en))]
 		}
+		w.Cur = p.ID
 		p.wake <- struct{}{}
 		<-w.back
 	}
